@@ -275,6 +275,14 @@ class DTypeSet:
         return compiled_dtype(as_dtype(ex, item, node))
 
 
+def concrete_exponents(E):
+    """a literal exponent list such as [(0,)] as an exponent matrix"""
+    if isinstance(E, (list, tuple)) and E and all(isinstance(r, tuple) and r and all(isinstance(x, int) and x == 0 for x in r) for r in E) \
+            and len(E) == 1:
+        return ExpMat(1, len(E[0]), lambda t: mono_zero, Region("fresh"), dt_int)
+    return E
+
+
 class NdpolyNew(Contract):
     """ndpoly(exponents, shape, names, dtype, allocation): fresh, UNINITIALISED storage with one field per row."""
     name = "numpoly.ndpoly"
@@ -294,6 +302,7 @@ class NdpolyNew(Contract):
         names = kw.get("names")
         dtype = kw.get("dtype")
         allocation = kw.get("allocation")
+        E = concrete_exponents(E)
         if not isinstance(E, ExpMat):
             raise U("ndpoly(...) with these exponents", node)
         if "order" in kw:
@@ -696,6 +705,7 @@ class PolynomialFromAttributes(Contract):
         b = dict(zip(self.positional, args))
         b.update(kw)
         E, Cin = b.get("exponents"), b.get("coefficients")
+        E = concrete_exponents(E)
         if isinstance(E, V.Seq):
             probe = E.item(z3.Int(ctx.fresh("probe")))
             if isinstance(probe, MonoRow):
@@ -746,7 +756,7 @@ class PolynomialFromAttributes(Contract):
                 ctx.assume(ctx.forall_idx(lambda i: r.val(i) == srcE.val(i), r.shape))
                 r.denotes = srcE
         r.from_attrs = dict(E=E, C=Cin, E2=E2, C2=C2, names=b.get("names"), rc=b.get("retain_coefficients"),
-                            rn=b.get("retain_names"), dtype=dtype)
+                            rn=b.get("retain_names"), dtype=dtype, allocation=alloc)
         hook = getattr(ex, "hooks", {}).get("after_from_attributes")
         if hook:
             hook(ex, r)
